@@ -110,12 +110,21 @@ def runCollect (c : Case) : String :=
      (operator_filter.go:510-548), `combineLatest` CombineLatest2(p1, p2)
      (operator_combining.go:244-318): one composite subscription holding the sources in
      subscription order.
+   * `leak` probe |> op for the operators that own a goroutine or a timer (go/harness/leak.go):
+     `ObserveOn` (detachOn, operator_utility.go:647-650: `subscriptions.Unsubscribe(); stop()`) and
+     `ThrowOnContextCancel` (operator_context.go:295-298: `sub.Unsubscribe(); close(done)`) release
+     their goroutine (id 90) in the same closure, after the upstream `Unsubscribe`, unisolated —
+     KNOWN FINDING C03: a panicking upstream teardown leaves the goroutine blocked for good.
   When the stream ends by the source's own terminal (`end=complete|error`) the subscription that is
   unsubscribed is the probe's own subscriber (subscriber.go:218, 240), caller: the emitting source. -/
 
-def setupTree (setup : String) (ending : String) : Option (List Fin) :=
+def setupTree (setup : String) (ending : String) (op : String := "") : Option (List Fin) :=
   let l (i : Nat) : Fin := .leaf i none
   match setup, ending == "unsub" with
+  | "leak", true =>
+    if op == "ObserveOn" then some [.closure [.sub [.sub [l 1]], l 90]]
+    else if op == "ThrowOnContextCancel" then some [.closure [.sub [l 1], l 90]]
+    else some [.sub [l 1], l 90]
   | "plain", true => some [.sub [l 1]]
   | "plain", false => some [l 1]
   | "tapAbove", true => some [.sub [l 1], l 2]
@@ -145,22 +154,26 @@ def parsePan (s : String) : Nat → Option Err :=
   fun id => (entries.find? (·.1 == id)).map (·.2)
 
 def runTeardown (c : Case) : String :=
-  match setupTree (c.getD "setup" "plain") (c.getD "end" "unsub") with
+  let setup := c.getD "setup" "plain"
+  match setupTree setup (c.getD "end" "unsub") (c.getD "op" "") with
   | none => s!"res {c.id} unsupported"
   | some tree =>
     -- an operator that never subscribes to its source (`Take(0)`) opens no subscription at all
-    let subscribes := match c.get "op" with
+    let subscribes := if setup == "leak" then true else match c.get "op" with
       | some op => match lookupAny op (parseInts (c.getD "p" "-")) (c.getD "var" "plain") (parseCbs c) with
         | some a => a.m.subscribes
         | none => true
       | none => true
     let tree := if subscribes then tree else []
     let r := unsubscribe (Fin.assignL (parsePan (c.getD "pan" "-")) tree)
-    let ran := renderNats r.1
+    -- ids from 90 on are releases inside the library (stop a goroutine): visible as a leak only
+    let user := r.1.filter (· < 90)
+    let ran := renderNats user
+    let leak := if setup == "leak" then s!" leaked={if r.1.contains 90 then 0 else 1}" else ""
     match r.2 with
-    | none => s!"res {c.id} ran={ran} raised=- at=- again=0 closed=1"
+    | none => s!"res {c.id} ran={ran} raised=- at=- again=0 closed=1{leak}"
     | some e =>
       let raised := if e.isJoinOfUn then "un(" ++ "+".intercalate (e.leaves.map renderErr) ++ ")" else "bad"
-      s!"res {c.id} ran={ran} raised={raised} at={r.1.length} again=0 closed=1"
+      s!"res {c.id} ran={ran} raised={raised} at={user.length} again=0 closed=1{leak}"
 
 end Ro.Driver.Drivers.Cut
